@@ -80,6 +80,10 @@ class MemStorage(Storage):
     def release(self):
         _MEM_REGISTRY.pop(self.sid, None)
 
+    def __len__(self):
+        # a sized provider: falsy as long as nothing is stored (a Storage is used, never truth-tested)
+        return len(self.d)
+
     def find_keys(self) -> Sequence[str]:
         return sorted(self.d)
 
